@@ -88,6 +88,34 @@ class UnitRecord:
     return c
 
 
+CACHE_LIMIT_BYTES = int(os.environ.get('MMVERIF_CACHE_LIMIT_MB', '1500')) << 20
+
+
+def prune_cache():
+  """Keeps .cache/obl under the size limit by deleting the least recently
+  used entries (obligation pickles of sources that no longer exist pile up
+  when many changed trees are checked)."""
+  try:
+    ents = []
+    for fn in os.listdir(CACHE_DIR):
+      p = os.path.join(CACHE_DIR, fn)
+      st = os.stat(p)
+      ents.append((st.st_atime, st.st_size, p))
+  except OSError:
+    return
+  total = sum(e[1] for e in ents)
+  if total <= CACHE_LIMIT_BYTES:
+    return
+  for _, size, p in sorted(ents):
+    try:
+      os.remove(p)
+    except OSError:
+      pass
+    total -= size
+    if total <= CACHE_LIMIT_BYTES * 2 // 3:
+      break
+
+
 def _cache_path(modname, qualname, src_sha):
   key = hashlib.sha256(('%s|%s|%s|%s' % (modname, qualname, src_sha,
                                          tool_hash())).encode()).hexdigest()
@@ -102,6 +130,7 @@ def verify_cached(modname, qualname):
     try:
       with open(path, 'rb') as f:
         rec = pickle.load(f)
+      os.utime(path)
       rec.cached = True
       return rec
     except Exception:  # pylint: disable=broad-except
@@ -142,6 +171,8 @@ def prove(targets, props=None, timeout_ms=10000, use_cvc5='fallback'):
   """
   res = ProofResult()
   t0 = time.time()
+  if USE_CACHE:
+    prune_cache()
   for modname, quals, with_lemmas in targets:
     side = load_sidecar(modname)
     if quals is None:
